@@ -179,6 +179,11 @@ pub enum Op {
     TokSend { t: u64, s: u64, d: u64, amt: u128, hook: Hook },
     TokInc { t: u64, owner: u64, spender: u64, amt: u128 },
     TokBurn { t: u64, s: u64, amt: u128 },
+    // a third party (`sp`) using the allowance `owner` granted it
+    TokXferFrom { t: u64, sp: u64, owner: u64, d: u64, amt: u128 },
+    TokSendFrom { t: u64, sp: u64, owner: u64, d: u64, amt: u128, hook: Hook },
+    TokBurnFrom { t: u64, sp: u64, owner: u64, amt: u128 },
+    TokDec { t: u64, owner: u64, spender: u64, amt: u128 },
     Provide { s: u64, p: u64, funds: Coins, as0: A, am0: u128, as1: A, am1: u128, tol: Option<u128>, rcv: Option<u64> },
     Swap { s: u64, p: u64, funds: Coins, offer: A, amt: u128, belief: Option<u128>, ms: Option<u128>, to: Option<u64> },
     PairReceive { s: u64, p: u64, funds: Coins, from: u64, amount: u128, hook: Hook },
@@ -209,6 +214,10 @@ impl std::fmt::Display for Op {
             Op::TokSend { t, s, d, amt, hook } => write!(f, "tok_send {t} {s} {d} {amt} {hook}"),
             Op::TokInc { t, owner, spender, amt } => write!(f, "tok_inc {t} {owner} {spender} {amt}"),
             Op::TokBurn { t, s, amt } => write!(f, "tok_burn {t} {s} {amt}"),
+            Op::TokXferFrom { t, sp, owner, d, amt } => write!(f, "tok_xfer_from {t} {sp} {owner} {d} {amt}"),
+            Op::TokSendFrom { t, sp, owner, d, amt, hook } => write!(f, "tok_send_from {t} {sp} {owner} {d} {amt} {hook}"),
+            Op::TokBurnFrom { t, sp, owner, amt } => write!(f, "tok_burn_from {t} {sp} {owner} {amt}"),
+            Op::TokDec { t, owner, spender, amt } => write!(f, "tok_dec {t} {owner} {spender} {amt}"),
             Op::Provide { s, p, funds, as0, am0, as1, am1, tol, rcv } => {
                 write!(f, "pair_provide {s} {p} {} {as0} {am0} {as1} {am1} {} {}", coins_str(funds), o(tol), o(rcv))
             }
@@ -242,6 +251,10 @@ pub fn parse_op(t: &[&str]) -> Op {
         "tok_send" => Op::TokSend { t: n(1), s: n(2), d: n(3), amt: a(4), hook: parse_hook(t[5]) },
         "tok_inc" => Op::TokInc { t: n(1), owner: n(2), spender: n(3), amt: a(4) },
         "tok_burn" => Op::TokBurn { t: n(1), s: n(2), amt: a(3) },
+        "tok_xfer_from" => Op::TokXferFrom { t: n(1), sp: n(2), owner: n(3), d: n(4), amt: a(5) },
+        "tok_send_from" => Op::TokSendFrom { t: n(1), sp: n(2), owner: n(3), d: n(4), amt: a(5), hook: parse_hook(t[6]) },
+        "tok_burn_from" => Op::TokBurnFrom { t: n(1), sp: n(2), owner: n(3), amt: a(4) },
+        "tok_dec" => Op::TokDec { t: n(1), owner: n(2), spender: n(3), amt: a(4) },
         "pair_provide" => Op::Provide {
             s: n(1), p: n(2), funds: parse_coins(t[3]), as0: parse_asset(t[4]), am0: a(5), as1: parse_asset(t[6]), am1: a(7),
             tol: po(t[8]), rcv: po(t[9]),
@@ -433,6 +446,14 @@ impl<'a> Env<'a> {
                     me.addr(*owner), me.addr(*t),
                     &Cw20ExecuteMsg::IncreaseAllowance { spender: me.astr(*spender), amount: Uint128::new(*amt), expires: None }, &[]),
                 Op::TokBurn { t, s, amt } => app.execute_contract(me.addr(*s), me.addr(*t), &Cw20ExecuteMsg::Burn { amount: Uint128::new(*amt) }, &[]),
+                Op::TokXferFrom { t, sp, owner, d, amt } => app.execute_contract(me.addr(*sp), me.addr(*t),
+                    &Cw20ExecuteMsg::TransferFrom { owner: me.astr(*owner), recipient: me.astr(*d), amount: Uint128::new(*amt) }, &[]),
+                Op::TokSendFrom { t, sp, owner, d, amt, hook } => app.execute_contract(me.addr(*sp), me.addr(*t),
+                    &Cw20ExecuteMsg::SendFrom { owner: me.astr(*owner), contract: me.astr(*d), amount: Uint128::new(*amt), msg: me.hook_bin(hook, *d == me.router) }, &[]),
+                Op::TokBurnFrom { t, sp, owner, amt } => app.execute_contract(me.addr(*sp), me.addr(*t),
+                    &Cw20ExecuteMsg::BurnFrom { owner: me.astr(*owner), amount: Uint128::new(*amt) }, &[]),
+                Op::TokDec { t, owner, spender, amt } => app.execute_contract(me.addr(*owner), me.addr(*t),
+                    &Cw20ExecuteMsg::DecreaseAllowance { spender: me.astr(*spender), amount: Uint128::new(*amt), expires: None }, &[]),
                 Op::Provide { s, p, funds, as0, am0, as1, am1, tol, rcv } => app.execute_contract(
                     me.addr(*s), me.addr(*p),
                     &PairExec::ProvideLiquidity {
@@ -534,7 +555,7 @@ impl<'a> Env<'a> {
             Ok(resp) => {
                 line.push_str("ok");
                 match &op {
-                    Op::Swap { .. } | Op::TokSend { hook: Hook::Swap { .. }, .. } | Op::PairReceive { hook: Hook::Swap { .. }, .. } => {
+                    Op::Swap { .. } | Op::TokSend { hook: Hook::Swap { .. }, .. } | Op::TokSendFrom { hook: Hook::Swap { .. }, .. } | Op::PairReceive { hook: Hook::Swap { .. }, .. } => {
                         if let (Some(a), Some(b), Some(c), Some(d)) = (
                             Self::attr(resp, "offer_amount"), Self::attr(resp, "return_amount"),
                             Self::attr(resp, "spread_amount"), Self::attr(resp, "commission_amount"),
@@ -547,7 +568,7 @@ impl<'a> Env<'a> {
                             line.push_str(&format!(" share {s}"));
                         }
                     }
-                    Op::TokSend { hook: Hook::Withdraw, .. } | Op::PairReceive { hook: Hook::Withdraw, .. } => {
+                    Op::TokSend { hook: Hook::Withdraw, .. } | Op::TokSendFrom { hook: Hook::Withdraw, .. } | Op::PairReceive { hook: Hook::Withdraw, .. } => {
                         if let Some(s) = Self::attr(resp, "refund_assets") {
                             // "<amt0><info0>, <amt1><info1>" — leading digits are the amounts
                             let amts: Vec<String> = s.split(", ").map(|p| p.chars().take_while(|c| c.is_ascii_digit()).collect()).collect();
@@ -1035,6 +1056,21 @@ impl Gen {
             }
         }
     }
+    /// allowances between users (owner → spender), for base tokens and the LP tokens of the observed pairs: a third
+    /// party can then move, send (with a hook), or burn the owner's tokens
+    pub fn setup_user_allowances(&self, e: &mut Env, r: &mut Rng) {
+        let mut toks: Vec<u64> = e.tokens.clone();
+        toks.extend(e.pairs.iter().take(8).map(|pm| pm.lp));
+        for t in toks {
+            for (owner, spender) in [(e.users[1], e.users[2]), (e.users[3], e.users[1]), (e.users[4], e.users[2])] {
+                if r.chance(2, 3) {
+                    let amt = match r.below(3) { 0 => 1 + r.below(1_000_000) as u128, 1 => e.bal(A::T(t), owner) / 2 + 1, _ => u128::MAX / 8 };
+                    e.step(Op::TokInc { t, owner, spender, amt });
+                    if !e.allow_watch.contains(&(t, owner, spender)) { e.allow_watch.push((t, owner, spender)); }
+                }
+            }
+        }
+    }
     /// the native denom whose text equals the address of token `t`, if any
     fn alias_of(&self, e: &Env, t: u64) -> Option<u64> {
         let name = e.astr(t);
@@ -1116,13 +1152,13 @@ impl Gen {
             }
         }
         let weights: &[(u32, &str)] = match family {
-            "swap" => &[(40, "swap"), (8, "provide"), (4, "withdraw"), (4, "donate"), (6, "forged"), (4, "misc"), (2, "factory")],
+            "swap" => &[(40, "swap"), (8, "provide"), (4, "withdraw"), (4, "donate"), (6, "forged"), (4, "misc"), (2, "factory"), (4, "third")],
             "auth" if e.pairs.iter().take(8).any(|pm| e.bal(A::T(pm.lp), pm.addr) > 0) => &[(5, "swap"), (5, "provide"), (20, "auth"), (25, "forged"), (10, "rauth"), (10, "factory"), (5, "donate"), (3, "lpmove")],
-            "liquidity" => &[(10, "swap"), (30, "provide"), (25, "withdraw"), (6, "donate"), (4, "forged"), (4, "misc"), (3, "lpmove"), (3, "factory")],
-            "route" => &[(10, "swap"), (4, "provide"), (2, "withdraw"), (45, "route"), (4, "donate"), (6, "rauth"), (8, "misc")],
+            "liquidity" => &[(10, "swap"), (30, "provide"), (25, "withdraw"), (6, "donate"), (4, "forged"), (4, "misc"), (3, "lpmove"), (3, "factory"), (5, "third")],
+            "route" => &[(10, "swap"), (4, "provide"), (2, "withdraw"), (45, "route"), (4, "donate"), (6, "rauth"), (8, "misc"), (3, "third")],
             "factory" => &[(5, "swap"), (5, "provide"), (30, "factory"), (6, "misc"), (6, "auth")],
-            "auth" => &[(5, "swap"), (5, "provide"), (30, "auth"), (10, "forged"), (10, "rauth"), (10, "factory"), (8, "donate"), (5, "lpmove")],
-            _ => &[(20, "swap"), (15, "provide"), (12, "withdraw"), (15, "route"), (6, "donate"), (6, "forged"), (5, "misc"), (6, "factory"), (5, "auth"), (4, "rauth"), (3, "lpmove")],
+            "auth" => &[(5, "swap"), (5, "provide"), (30, "auth"), (10, "forged"), (10, "rauth"), (10, "factory"), (8, "donate"), (5, "lpmove"), (5, "third")],
+            _ => &[(20, "swap"), (15, "provide"), (12, "withdraw"), (15, "route"), (6, "donate"), (6, "forged"), (5, "misc"), (6, "factory"), (5, "auth"), (4, "rauth"), (3, "lpmove"), (5, "third")],
         };
         let total: u32 = weights.iter().map(|w| w.0).sum();
         let mut x = r.below(total as u64) as u32;
@@ -1270,6 +1306,41 @@ impl Gen {
                     3 => { let sup = e.supply(pm.lp); let m = r0.min(r1).max(1); ((sup / m).max(1) + r.below(3) as u128).saturating_sub(1).min(b).max(1) }
                     _ => b / (1 + r.below(20) as u128) + 1 };
                 Op::TokSend { t: pm.lp, s: holder, d: pm.addr, amt, hook: Hook::Withdraw }
+            }
+            "third" => {
+                // a third party using an allowance a user granted it (cw20 TransferFrom / SendFrom / BurnFrom), or the
+                // owner shrinking it (DecreaseAllowance)
+                let watch: Vec<(u64, u64, u64)> = e.allow_watch.iter().copied().filter(|(_, o, sp)| (*o as usize) < 6 && (*sp as usize) < 6).collect();
+                if watch.is_empty() {
+                    return Some(Op::BankSend { s: u, d: e.users[1], coins: vec![(0, 1)] });
+                }
+                let (t, owner, sp) = *r.pick(&watch);
+                let ob = e.bal(A::T(t), owner);
+                let amt = match r.below(6) { 0 => 0, 1 => ob, 2 => ob.saturating_add(1), 3 => 1 + r.below(1000) as u128, _ => ob / (2 + r.below(50) as u128) + 1 };
+                let sp = if r.chance(1, 10) { self.user(e, r) } else { sp };   // sometimes somebody without an allowance
+                // a pair that trades (or is minted by) this token, if any
+                let pairs_t: Vec<PairMeta> = e.pairs.iter().take(8).filter(|q| q.a0 == A::T(t) || q.a1 == A::T(t) || q.lp == t).cloned().collect();
+                match r.below(8) {
+                    0 | 1 => Op::TokXferFrom { t, sp, owner, d: if r.chance(1, 4) { pm.addr } else { self.user(e, r) }, amt },
+                    2 | 3 | 4 if !pairs_t.is_empty() => {
+                        let q = r.pick(&pairs_t).clone();
+                        if q.lp == t {
+                            Op::TokSendFrom { t, sp, owner, d: q.addr, amt, hook: Hook::Withdraw }
+                        } else {
+                            let rq = e.bal(A::T(t), q.addr);
+                            let a2 = if r.chance(1, 2) { (rq / (2 + r.below(100) as u128)).min(ob) + 1 } else { amt };
+                            let named_amt = match r.below(12) { 0 => a2.saturating_sub(1), 1 => a2 + 1, _ => a2 };
+                            Op::TokSendFrom { t, sp, owner, d: q.addr, amt: a2, hook: Hook::Swap { offer: A::T(t), amt: named_amt, belief: None, ms: if r.chance(1, 4) { Some(pick_rate(r)) } else { None }, to } }
+                        }
+                    }
+                    5 => {
+                        // a route entered through SendFrom
+                        let ops = self.route(e, r);
+                        Op::TokSendFrom { t, sp, owner, d: e.router, amt, hook: Hook::ROps { ops, min: None, to } }
+                    }
+                    6 => Op::TokBurnFrom { t, sp, owner, amt },
+                    _ => Op::TokDec { t, owner, spender: sp, amt: match r.below(3) { 0 => 1, 1 => u128::MAX / 2, _ => amt } },
+                }
             }
             "lpmove" => {
                 let holder = *r.pick(&e.users[1..5].to_vec());
@@ -1566,7 +1637,7 @@ fn pre_queries(e: &mut Env, op: &Op) {
     // quote immediately before a swap, so the driver can compare quote and execution (C12)
     match op {
         Op::Swap { p, offer, amt, .. } => e.q_sim(*p, *offer, *amt),
-        Op::TokSend { d, hook: Hook::Swap { offer, amt, .. }, .. } if e.pairs.iter().any(|pm| pm.addr == *d) => e.q_sim(*d, *offer, *amt),
+        Op::TokSend { d, hook: Hook::Swap { offer, amt, .. }, .. } | Op::TokSendFrom { d, hook: Hook::Swap { offer, amt, .. }, .. } if e.pairs.iter().any(|pm| pm.addr == *d) => e.q_sim(*d, *offer, *amt),
         _ => {}
     }
 }
@@ -1585,6 +1656,7 @@ pub fn run(w: &mut dyn Write, family: &str, nseq: u64, nsteps: u64, seed: u64) {
             _ => r.range(2, 5) as usize,
         };
         g.setup_pairs(&mut e, &mut r, npairs);
+        if family != "factory" { g.setup_user_allowances(&mut e, &mut r); }
         if (family == "liquidity" || family == "mixed") && seq % 3 == 0 {
             // deep-and-wide pools: supplies grown by provisions many times the pool, reserves pushed toward
             // 2^120 by donation — the regime where ratio arithmetic meets the 128/256-bit limits (C04, C20)
